@@ -414,6 +414,40 @@ func runQueue(ctx *RunCtx) *Result {
 		res.Distribution["actions"] += nact
 		res.Add(term, js, fmt.Sprintf("%d|%d|%d", ctx.Seed, i, nact), nact > 0)
 		queueMonitor(res, ops, obs, js)
+
+		// Wake-up epilogue (implementation only, after the modelled history; C07 "started
+		// without further user action"): a due Job whose Add event reaches the controller
+		// before its JobConfig is in the JobConfig cache (the two informers fill
+		// independently, e.g. after a restart) is dropped by the event handler and must be
+		// picked up at the next informer resync. The pass runs only if the handlers put
+		// the JobConfig on the work queue.
+		if c.Chance(1, 2) {
+			im.api.faults = nil
+			id := nextID
+			im.sc.informers.JobConfigs.Remove("ns/" + jcName)
+			im.apply(qOp{Kind: "create", ID: id, Owned: true, Policy: "Allow", T: created + 1})
+			im.apply(qOp{Kind: "advcache", N: 1000})
+			im.apply(qOp{Kind: "store", N: 1000})
+			im.apply(qOp{Kind: "wake", N: 1000})
+			im.sc.informers.JobConfigs.Set(im.jc)
+			for im.jcq.Len() > 0 {
+				k, _ := im.jcq.Get()
+				im.jcq.Done(k)
+			}
+			im.sc.informers.Jobs.Resync()
+			im.apply(qOp{Kind: "store", N: 1000})
+			im.apply(qOp{Kind: "wake", N: 1000})
+			woken := im.jcq.HasReady("ns/" + jcName)
+			if woken {
+				im.apply(qOp{Kind: "sync"})
+			}
+			res.Count("wake-epilogue")
+			if rj := im.api.getJob(jobNameOf(id)); rj == nil || rj.Status.StartTime.IsZero() {
+				res.Hits = append(res.Hits, MonitorHit{"C07", "C07/due-job-never-woken",
+					fmt.Sprintf("job%d (Allow, due) was delivered before its JobConfig was cached; after the JobConfig arrived and the informer resynced, the JobConfig is on the work queue: %v; the Job is not started", id, woken),
+					map[string]interface{}{"now": now, "max": max, "ops": ops, "epilogue": "create job while the JobConfig cache lags, JobConfig arrives, resync"}})
+			}
+		}
 	}
 	return res
 }
